@@ -103,9 +103,12 @@ def sankey_cases(prog, rep, fails):
         for excl_p in (None, [], ["sysenv", "reuse"]):
             for excl_f in ([], ["first"], ["isolate"]):
                 for split in (None, "a", "aa"):
-                    settings.append((slice_kind, excl_p, excl_f, split))
+                    settings.append((slice_kind, excl_p, excl_f, split, False))
+                    if split is None and (excl_p or excl_f) and excl_p != []:
+                        # history: the plotter exists (and has plotted) with default exclusions; the exclusions are then assigned
+                        settings.append((slice_kind, excl_p, excl_f, split, True))
     for gi, graph in enumerate(SANKEY_GRAPHS):
-        for slice_kind, excl_p, excl_f, split in settings:
+        for slice_kind, excl_p, excl_f, split, late in settings:
             if excl_p and any(p not in graph[0] for p in excl_p):
                 continue
             if not take():
@@ -139,6 +142,9 @@ def sankey_cases(prog, rep, fails):
                 continue        # split by a dimension that the slice removes: not a meaningful setting
             inp = {"graph": gi, "slice": slice_dict, "exclude_processes": excl_p if excl_p is not None else "default", "exclude_flows": ef,
                    "split_flow_by": split, "split_flow": split_flow}
+            if late:
+                inp["history"] = "plotter built and plotted without these exclusions; exclude_processes / exclude_flows assigned afterwards; plot() again"
+                late_kw = {k: kw.pop(k) for k in ("exclude_processes", "exclude_flows") if k in kw}
             kind, pl = run_guarded(lambda: it.construct(P, [], kw))
             rep.evaluations += 1
             if kind != "ok":
@@ -146,9 +152,13 @@ def sankey_cases(prog, rep, fails):
                 note(fails, rid, "PlotlySankeyPlotter", inp, f"valid plotter settings were refused: {getattr(pl, 'msg', pl)!s:.150}")
                 continue
             kind, fig = run_guarded(lambda: it.call_method(pl, "plot"))
+            if late and kind == "ok":
+                # exclusions are only ever ADDED here (the default excludes sysenv); a plotter that refuses the assignment is not judged
+                ka, _ = run_guarded(lambda: [it.set_attr(pl, k, v, None) for k, v in late_kw.items()])
+                if ka != "ok":
+                    continue
+                kind, fig = run_guarded(lambda: it.call_method(pl, "plot"))
             problems = []
-            sk = [r for r in log if isinstance(r[0], Rec) and False]
-            sankeys = [e for e in log if False]
             sank = None
             if kind == "ok" and isinstance(fig, Rec) and fig._args and isinstance(fig._args[0], Rec) and fig._args[0]._kind == "sankey":
                 sank = fig._args[0]
